@@ -273,7 +273,7 @@ static void r_check_common(RExc x, bool cut) {
         __verif_assert(r_done && r_tokens == g_total_tokens, "exactly the one item is consumed");
     }
 }
-#define R_SIMPLE(name, T) extern "C" void h_r_##name(void) { Box<T> src; sym(src.v); tk_rreset(); { Builder bd(R); schema(bd, src.v); } Store E = R; \
+#define R_SIMPLE(name, T) extern "C" void h_r_##name(void) { Box<T> src; sym(src.v); tk_rreset(); { Builder bd(R); schema(bd, src.v); } Store E; { Builder be(E); schema(be, src.v); } \
     r_prepare(true); bool cut = nondet_bool(); if (cut) { r_cut = (unsigned)vs_range(40); __verif_assume(r_cut < g_total_tokens); } \
     Box<T> dst; sym(dst.v); DecBox d; R_CALL(dst.v.read(d.d)) r_check_common(x, cut); \
     if (!cut && x == RX_NONE) { Store G; { Builder bd(G); schema(bd, dst.v); } __verif_assert(store_eq(G, E, false), "read() returns exactly the members that were present, with their values; absent stay absent (C01/C09/C08)"); } \
@@ -284,7 +284,7 @@ R_SIMPLE(aec, AddressEventCount) R_SIMPLE(storagehints, StorageHints)
 
 extern "C" void h_r_queryresponse(void) {
     Box<QueryResponse> src; sym(src.v); uint64_t off = nondet_u64();
-    tk_rreset(); { Builder bd(R); schema(bd, src.v, true, off); } Store E = R;
+    tk_rreset(); { Builder bd(R); schema(bd, src.v, true, off); } Store E; { Builder be(E); schema(be, src.v, true, off); }
     r_prepare(true); bool cut = nondet_bool(); if (cut) { r_cut = (unsigned)vs_range(40); __verif_assume(r_cut < g_total_tokens); }
     Box<QueryResponse> dst; sym(dst.v); DecBox d; R_CALL(dst.v.read(d.d)) r_check_common(x, cut);
     if (!cut && x == RX_NONE) {
@@ -297,7 +297,7 @@ extern "C" void h_r_queryresponse(void) {
 }
 extern "C" void h_r_malformedmessage(void) {
     Box<MalformedMessage> src; sym(src.v); uint64_t off = nondet_u64();
-    tk_rreset(); { Builder bd(R); schema(bd, src.v, true, off); } Store E = R;
+    tk_rreset(); { Builder bd(R); schema(bd, src.v, true, off); } Store E; { Builder be(E); schema(be, src.v, true, off); }
     r_prepare(true); bool cut = nondet_bool(); if (cut) { r_cut = (unsigned)vs_range(40); __verif_assume(r_cut < g_total_tokens); }
     Box<MalformedMessage> dst; sym(dst.v); DecBox d; R_CALL(dst.v.read(d.d)) r_check_common(x, cut);
     if (!cut && x == RX_NONE) {
@@ -311,10 +311,10 @@ static void r_params_common(unsigned which) {
     // which: 0 StorageParameters (lists 1,2)  1 CollectionParameters  2 BlockParameters
     tk_rreset();
     Box<StorageParameters> sp; Box<CollectionParameters> cp; Box<BlockParameters> bp;
-    if (which == 0) { sym(sp.v, 1, 2); Builder bd(R); schema(bd, sp.v); }
-    else if (which == 1) { sym(cp.v, 2, 0, 1); Builder bd(R); schema(bd, cp.v); }
-    else { sym(bp.v.storage_parameters, 0, 0); bp.v.collection_parameters.m_init = nondet_bool(); sym(bp.v.collection_parameters.m_val, (unsigned)0, (unsigned)0, (unsigned)0); Builder bd(R); schema(bd, bp.v); }
-    Store E = R;
+    Store E;
+    if (which == 0) { sym(sp.v, 1, 2); { Builder bd(R); schema(bd, sp.v); } Builder be(E); schema(be, sp.v); }
+    else if (which == 1) { sym(cp.v, 2, 0, 1); { Builder bd(R); schema(bd, cp.v); } Builder be(E); schema(be, cp.v); }
+    else { sym(bp.v.storage_parameters, 0, 0); bp.v.collection_parameters.m_init = nondet_bool(); sym(bp.v.collection_parameters.m_val, (unsigned)0, (unsigned)0, (unsigned)0); { Builder bd(R); schema(bd, bp.v); } Builder be(E); schema(be, bp.v); }
     r_prepare(true); bool cut = nondet_bool(); if (cut) { r_cut = (unsigned)vs_range(40); __verif_assume(r_cut < g_total_tokens); }
     DecBox d; Store G; RExc xx;
     if (which == 0) { Box<StorageParameters> dst; new (&dst.v) StorageParameters(); R_CALL(dst.v.read(d.d)) xx = x; if (!cut && x == RX_NONE) { Builder bd(G); schema(bd, dst.v); } }
